@@ -10,6 +10,9 @@
 (* Classes are a closed table of regexes whose meaning over the token      *)
 (* alphabet is unambiguous:                                                *)
 (*    any = [^/]+   dig = \d+   num = [1-9][0-9]*   word = \w+             *)
+(*    (a variable NAMED num / all / any, or uid - a global variable the   *)
+(*    application adds with SetGlobalVar - gets its class from its name  *)
+(*    when the pattern gives no regex; an inline regex always wins)       *)
 (*    all = .*      rest1 = .+      ab = (?:a|b)+   (note the ':' inside)  *)
 (* Decomps(pat, path) is the SET of all ways the whole path decomposes     *)
 (* along the pattern; the oracle never depends on regexp greediness.       *)
